@@ -44,6 +44,66 @@ let dispatch_oid cmd args =
   | "oid_parse", [h] -> Some (pres_s (parse_arcs (bytes_of_hex h)))
   | _ -> None
 
+(* ---- caller-supplied capacity: <slots> is a number or N (NULL, 0 slots) ---- *)
+let nslots s = if s = "N" then 0 else int_of_string s
+let blank_array n = List.init n (fun _ -> blank)
+let cells arr = String.concat "" (List.map (fun c -> if c = blank then " _" else " " ^ string_of_cz c) arr)
+
+let ires_s = function
+  | IArcs (n, arr) -> Printf.sprintf "OK %d%s" (int_of_nat n) (cells arr)
+  | IFail -> "FAIL"
+  | IFuel -> "FUEL"
+
+let qres_s = function
+  | QOk (n, arr, e) -> Printf.sprintf "OK %d%s @%s" (int_of_nat n) (cells arr) (string_of_cz e)
+  | QEinval e -> "EINVAL @" ^ string_of_cz e
+  | QErange e -> "ERANGE @" ^ string_of_cz e
+  | QFuel -> "FUEL"
+
+let fres_s = function
+  | FNone -> "NONE"
+  | FOk (a0, a1, rd, _) -> Printf.sprintf "OK %s %s %s" (string_of_cz a0) (string_of_cz a1) (string_of_cz rd)
+  | FErange -> "ERANGE"
+  | FEinval -> "EINVAL"
+
+(* the XER body decoders: parse_arcs, then set_arcs, read back with get_arcs *)
+let xer_s rel h =
+  match parse_arcs (bytes_of_hex h) with
+  | POk (l, _) when l <> [] ->
+      (match (if rel then reloid_set_arcs l else set_arcs l) with
+       | SetOk bs -> ores_s (if rel then reloid_get_arcs bs else get_arcs bs)
+       | _ -> "FAIL")
+  | _ -> "FAIL"
+
+(* up to the first NUL: what strlen() sees *)
+let rec cut_nul = function
+  | [] -> []
+  | c :: tl -> if string_of_cz c = "0" then [] else c :: cut_nul tl
+
+(* the XER body writers print the arcs in decimal with '.' between them (glue; the arcs
+   come from the model) *)
+let dump_s sep = function
+  | OArcs l ->
+      let t = String.concat sep (List.map string_of_cz l) in
+      let hex = String.concat "" (List.map (fun c -> Printf.sprintf "%02x" (Char.code c)) (List.of_seq (String.to_seq t))) in
+      Printf.sprintf "OK %d %s" (String.length t) (if t = "" then "-" else hex)
+  | _ -> "FAIL"
+
+let dispatch_slots cmd args =
+  match cmd, args with
+  | "oid_parse_z", [s; h] -> Some (qres_s (parse_arcs_arr (cut_nul (bytes_of_hex h)) (blank_array (nslots s))))
+  | "oid_dump", [h] -> Some (dump_s "." (get_arcs (bytes_of_hex h)))
+  | "reloid_dump", [h] -> Some (dump_s "." (reloid_get_arcs (bytes_of_hex h)))
+  | "oid_set_re", _ :: arcs -> Some (setres_s (set_arcs (czs arcs)))
+  | "reloid_set_re", _ :: arcs -> Some (setres_s (reloid_set_arcs (czs arcs)))
+  | "oid_get_n", [s; h] -> Some (ires_s (get_arcs_arr (bytes_of_hex h) (blank_array (nslots s))))
+  | "reloid_get_n", [s; h] -> Some (ires_s (reloid_get_arcs_arr (bytes_of_hex h) (blank_array (nslots s))))
+  | "oid_parse_n", [s; h] -> Some (qres_s (parse_arcs_arr (bytes_of_hex h) (blank_array (nslots s))))
+  | "oid_first", [h] -> Some (fres_s (get_first_arcs (bytes_of_hex h)))
+  | "oid_xer", [h] -> Some (xer_s false h)
+  | "reloid_xer", [h] -> Some (xer_s true h)
+  | _ -> None
+
 (* ---- time ---- *)
 let gtres_s = function
   | GtOk (t, fv, fd) -> Printf.sprintf "OK %s %s %s" (string_of_cz t) (string_of_cz fv) (string_of_cz fd)
@@ -62,6 +122,11 @@ let dispatch_time cmd args =
   | "gt_of_time", [t; fv; fd; force; _tz; off] ->
       Some (opt_hex (time2GT_frac (localtime (cz_of_string t) (cz_of_string off))
                        (cz_of_string fv) (cz_of_string fd) (flag force)))
+  | "gt_of_time_opt", [t; fv; fd; force; _tz; off; _prev] ->
+      Some (opt_hex (time2GT_frac (localtime (cz_of_string t) (cz_of_string off))
+                       (cz_of_string fv) (cz_of_string fd) (flag force)))
+  | "ut_of_time_opt", [t; force; _tz; off; _prev] ->
+      Some (opt_hex (time2UT (localtime (cz_of_string t) (cz_of_string off)) (flag force)))
   | "ut_of_time", [t; force; _tz; off] ->
       Some (opt_hex (time2UT (localtime (cz_of_string t) (cz_of_string off)) (flag force)))
   | "time_of_gt", [h; _as_gmt; _tz; loff] ->
@@ -85,4 +150,7 @@ let dispatch_time cmd args =
 let dispatch cmd args =
   match dispatch_oid cmd args with
   | Some r -> Some r
-  | None -> dispatch_time cmd args
+  | None ->
+      match dispatch_slots cmd args with
+      | Some r -> Some r
+      | None -> dispatch_time cmd args
